@@ -252,3 +252,26 @@ theorem reload_build {u : UC} {d : ClassDiagram} {comp : Option Nat} {drv : Bool
   exact ⟨text, stmts, bs, ht, hc, hb, he⟩
 
 end Pyx.Extract
+
+namespace Pyx.Extract
+open Pyx.Sql
+
+theorem toMM_no_rows (s : Schema) : (s.toMM).classes.flatMap ClassM.instItems = [] := by
+  simp only [Schema.toMM, List.flatMap_map]
+  induction s.classes with
+  | nil => rfl
+  | cons c t ih => simp [List.flatMap_cons, ClassM.instItems, SClass.toM, ih]
+
+/-- what the file written by `gen_sql_schema.main` consists of: for every class its CREATE TABLE item and one CREATE
+    UNIQUE INDEX item per kept identifier, and one CREATE ROP item per association — nothing else (the route only
+    sorts them) -/
+theorem persistDatabase_contents (u : UC) (s : Schema) :
+    ((s.toMM).persistDatabase u).Perm
+      ((s.toMM).classes.flatMap (fun c => c.item :: c.indexItems) ++ (s.toMM).assocs.map AssocM.item) := by
+  unfold MM.persistDatabase
+  rw [toMM_no_rows, List.append_nil]
+  apply List.Perm.append
+  · exact List.Perm.flatMap_right _ (sortBy_perm _ _)
+  · exact List.Perm.map _ (sortBy_perm _ _)
+
+end Pyx.Extract
